@@ -85,6 +85,7 @@ var probeKinds = []probeKind{
 	// nodes away
 	{"raw", "http", "json", "GET /zz/a/1", svcMessaging + ".GetMessageOne"}, {"raw", "http", "json", "GET /zz/b/1", svcMessaging + ".GetMessageOne"},
 	{"raw", "http", "json", "GET /zz/c/1", tsvc + ".UnaryCall"}, {"raw", "http", "json", "GET /zz/d/1", svcFiles + ".UploadDownload"},
+	{"raw", "http", "json", "DELETE /zz/d/1", svcFiles + ".UploadDownload"}, // through the kind * binding of the same method on that node
 	// routes of one service below the implicit /Service/Method node of another
 	{"raw", "http", "json", "GET /larking.testpb.Messaging/GetMessageOne/x/f1", svcFiles + ".UploadDownload"},
 	{"raw", "http", "json", "GET /grpc.testing.TestService/UnaryCall/y/n1", svcMessaging + ".GetMessageOne"},
@@ -111,7 +112,9 @@ var registryRules = []RuleSpec{{
 	Additional: []RuleSpec{{Verb: "get", Template: "/zz/{name=b/*}"}, {Verb: "get", Template: "/grpc.testing.TestService/UnaryCall/y/{name}"}},
 }, {
 	Selector: svcFiles + ".UploadDownload", Verb: "get", Template: "/zz/{filename=d/*}",
-	Additional: []RuleSpec{{Verb: "get", Template: "/larking.testpb.Messaging/GetMessageOne/x/{filename}"}},
+	// (the last one: the rule's own template once more for every verb - one
+	// method then holds a verb and kind * on one node)
+	Additional: []RuleSpec{{Verb: "get", Template: "/larking.testpb.Messaging/GetMessageOne/x/{filename}"}, {Verb: "custom:*", Template: "/zz/{filename=d/*}"}},
 }, {
 	// binds a field that only the newer build of sim/users.proto has: a backend
 	// on the older build cannot be registered for Users while nobody else
@@ -161,6 +164,7 @@ func genC11(r *core.Rand, run int) *MuxScenario {
 	sc.Backends = append([]BackendSpec(nil), c11Backends...)
 	for i := range sc.Backends {
 		sc.Backends[i].Verbose = (run+i)%2 == 1 // two reflection implementations
+		sc.Backends[i].DepsFirst = (run+i)%4 == 3 // ... the second one in either order of its answers' files
 	}
 	var ops []RegOp
 	A := len(c11Alphabet)
